@@ -351,6 +351,10 @@ RENAMES = [
      MK + "lib.rs",
      "fn audit_path_len(leaf_index: usize, tree_size: usize) -> Option<usize> {", "fn is_tree_index_in_tree(",
      [("len", "steps"), ("root", "top")]),
+    ("C08-rename-climb-variable", "loop variable of LeafBuilder::drop renamed",
+     MK + "lib.rs",
+     "impl Drop for LeafBuilder<'_> {", "impl<'a> LeafBuilder<'a> {" if False else "\n/// ",
+     [("idx", "node"), ("new_value", "hash")]),
     ("C15-rename-parameter", "parameters of validate_extended_commit_against_last_commit renamed",
      SQ + "app/vote_extension.rs",
      "fn validate_extended_commit_against_last_commit(", "    Ok(())\n}\n",
